@@ -716,8 +716,9 @@ CHECKS = {
                "the logged destination representation must be the multiple of the destination resolution selected by the mode "
                "from the exact source value, for every source whose rounded result is representable.",
                "conversion forms that do not compile in the library (scaled -> plain integer under nearest, non-narrowing "
-               "scaled -> scaled under nearest) are not exercised; rounding_integer/static_number construction is covered "
-               "through C11's histories"),
+               "scaled -> scaled under nearest) are not exercised; rounding_integer<Int, Tag>{floating} is recorded next to "
+               "convert<>; every rejected event must equal alg/AsCodedRConv.tla (bias added in floating point, floor via the "
+               "cast round trip, binary shift for decimal scales) to count as one of the listed findings"),
     "C05": chk(["elastic"], ["elastic"],
                "events = +,-,*,/,%,unary -, << / >> by a constant, numeric_limits on pairs of elastic_integer types from the "
                "TLC-enumerated lattice (GenElastic: digits 1..64 x signedness x narrowest 8/32/64 bit, fixed core + VERIF_SEED "
@@ -735,32 +736,39 @@ CHECKS = {
     "C10": chk(["wide"], [],
                "events = every operator (+,-,*,/,%,&,|,^, unary -, ++/--, << / >> by 0..N-1 incl. limb multiples, the six "
                "comparisons), conversions to/from 64/32-bit integers and double, numeric_limits and decimal stream output of "
-               "wide_integer<D, Narrowest> for D in {129,130,200,255,256,500,1000} (2048 and 65 in thorough), signed and "
+               "wide_integer<D, Narrowest> for D in {129,130,160,192,200,255,256,500,1000} (2048 and 65 in thorough), signed and "
                "unsigned, limb types 8/16/32/64 bit; operands: limb-structured patterns (all-ones limbs, single bits at word "
-               "edges, 0x8000../0x7fff.. tops, (B^k-1)/(B-1) repunits, alternating) + seeded random with random limb sparsity; "
+               "edges, 0x8000../0x7fff.. tops, (B^k-1)/(B-1) repunits, alternating, neighbours of 53-bit rounding ties) + seeded random with random limb sparsity; "
                "multi-limb values are sliced from crepresentation() by the recorder; non-trivial = operand wider than 64 bits",
                "TLA+ spec (SemWide: mathematical integers reduced to the N-bit two's-complement range with BigInt.Wrap, "
-               "truncated division, arithmetic right shift, RNE to double, canonical decimal numeral) evaluated by TLC on every "
+               "truncated division, arithmetic right shift, either neighbouring double, canonical decimal numeral) evaluated by TLC on every "
                "recorded event (trace validation)",
                "each result must equal integer arithmetic modulo 2^N for the storage width N of the multi-limb representation; "
-               "the same patterns run through 8/16/32/64-bit limb types, so a limb-split dependence shows up as a rejection.",
+               "the same patterns run through 8/16/32/64-bit limb types, so a limb-split dependence shows up as a rejection; the "
+               "storage must have room for the declared digits plus the sign.",
                "operator~ and mixed-width operators do not compile for multi-limb wide_integer and are not exercised; the "
                "number of operand pairs per type is bounded (BigInt judging of 2048-bit quotients is slow); comparisons of "
                "wide_integer (C03's clause) are judged here"),
     "C11": chk(["static"], [],
-               "events = steps of TLC-simulated programs (gen/GenPrograms: 7 steps of Load / d := a op b over a register file of "
-               "4 typed numbers, -seed VERIF_SEED, de-duplicated, 1500 programs quick / 40000 thorough) executed by an interpreter "
-               "on real static_number / static_integer objects for 4 type menus (nearest+saturated, nearest+throwing, "
-               "neg_inf+trapping static_numbers with digits 4..100 and exponents -50..6; tie_to_pos_inf+saturated "
-               "static_integers with int8 narrowest); the whole register file is logged after every step",
-               "TLA+ state machine (CnlMachine: register file, actions Reset / Load / Step, expected result = exact operator "
-               "result, rounding conversion by the destination's mode, overflow reaction by its tag) and action-by-action trace "
+               "events = steps of TLC-simulated programs (gen/GenPrograms: 7 steps over a register file of 4 typed numbers drawn "
+               "from the action alphabet Load / d := a op b / d op= a / d := -a / construction from a built-in integer / "
+               "construction from a double / the six comparisons / conversion to double; -seed VERIF_SEED, de-duplicated, 1500 "
+               "programs quick / 40000 thorough) executed by an interpreter on real static_number / static_integer objects for 5 "
+               "type menus (nearest+saturated, nearest+throwing, neg_inf+trapping static_numbers with digits 4..100 and exponents "
+               "-50..6; tie_to_pos_inf+saturated static_integers with int8 narrowest; nearest+saturated static_integers whose "
+               "sums and products have 64/96/128/192 digits, i.e. exact multiples of the limb width); the whole register file is "
+               "logged after every step",
+               "TLA+ state machine (CnlMachine: register file, actions Reset / Load / Step / FromInt / FromFloat / Cmp / ToFloat, "
+               "expected result = exact operator result or source value, rounding conversion by the destination's mode, overflow "
+               "reaction by its tag, comparisons by value) and action-by-action trace "
                "validation by TLC (JudgeMachine carries the register file from line to line; a step must start from the state "
                "the spec computed, may change only its destination, and must store the expected value or signal overflow)",
                "histories of operations feeding each other: no step may produce a different value without an overflow signal, "
                "throw/trap must leave the destination untouched, no other register may change.",
                "mixed narrowest types / mixed tags within one expression do not compile in the library and are not exercised; "
-               "comparisons and conversions to built-ins inside histories are covered by C03/C04 families only"),
+               "conversions of a register to built-in integers are covered by the C04/C09 families only; rejected constructions "
+               "from integers must equal JudgeMachine.AsCodedM (truncation / scaling in the 64-bit source type) to count as the "
+               "two listed findings"),
     "C12": chk(["native", "overflow"], [],
                "events = wrapper expression next to the bare built-in expression for wrapper nestings {scaled<_,0>, "
                "overflow_integer<_,native>, rounding_integer<_,native>, scaled<overflow<rounding>>, overflow<rounding>} x "
@@ -778,7 +786,7 @@ CHECKS = {
                "cannot enumerate them); inputs on which the bare expression is undefined are skipped"),
     "C13": chk(["text"], ["tochars"],
                "events = cnl::to_chars(first, first+cap, v) for scaled_integer (radix 2/3/8/10, exponents -70..70, reps 8..64 "
-               "bit, core list + VERIF_SEED sample) and integers (8..128 bit, elastic; bases 2/8/10/16/36) x all values of 8-bit "
+               "bit, core list + VERIF_SEED sample) and integers (8..128 bit, elastic, signed wide_integer<130/200/256>; bases 2/8/10/16/36) x all values of 8-bit "
                "reps (16-bit in thorough), boundary/random values of wider reps x buffer lengths 0..capacity+2; the buffer ends "
                "at a PROT_NONE page and is preceded by 64 canary bytes, each call runs twice with different fill patterns; plus "
                "to_chars_static / to_string / operator<< per value; 0.3 s watchdog; non-trivial = short buffer or negative value",
